@@ -359,9 +359,18 @@ func (t *Table) storeEffect(f *ssa.Function, call ssa.CallInstruction, kind stri
 		}
 		break
 	}
+	// a store captured by a function literal: resolve what the enclosing function bound to that variable
+	rf := f
+	for hop := 0; hop < 3; hop++ {
+		pf, pv := capturedValue(rf, v)
+		if pf == nil {
+			break
+		}
+		rf, v = pf, pv
+	}
 	prefix := ""
 	havePrefix := false
-	e.Module, e.KeyField, prefix, havePrefix = t.resolveStore(f, v, 0)
+	e.Module, e.KeyField, prefix, havePrefix = t.resolveStore(rf, v, 0)
 	if havePrefix {
 		e.Prefix = prefix
 		if prefix == "" && key != nil {
@@ -450,6 +459,55 @@ func (t *Table) resolveStore(f *ssa.Function, v ssa.Value, depth int) (mod, fiel
 		mod, field = t.keyOwner(f, kc.Call.Args[1])
 	}
 	return
+}
+
+// capturedValue: v is (a load of) a free variable of the function literal f: returns the enclosing function and the
+// value it stored in the captured variable (single assignment), or nil.
+func capturedValue(f *ssa.Function, v ssa.Value) (*ssa.Function, ssa.Value) {
+	v = stripIface(v)
+	var fv *ssa.FreeVar
+	switch x := v.(type) {
+	case *ssa.FreeVar:
+		fv = x
+	case *ssa.UnOp:
+		fv, _ = x.X.(*ssa.FreeVar)
+	}
+	parent := f.Parent()
+	if fv == nil || parent == nil {
+		return nil, nil
+	}
+	idx := -1
+	for i, q := range f.FreeVars {
+		if q == fv {
+			idx = i
+		}
+	}
+	if idx < 0 {
+		return nil, nil
+	}
+	for _, b := range parent.Blocks {
+		for _, ins := range b.Instrs {
+			mc, ok := ins.(*ssa.MakeClosure)
+			if !ok || mc.Fn != ssa.Value(f) || idx >= len(mc.Bindings) {
+				continue
+			}
+			bv := mc.Bindings[idx]
+			if al, ok := bv.(*ssa.Alloc); ok {
+				var sts []*ssa.Store
+				for _, r := range *al.Referrers() {
+					if st, ok := r.(*ssa.Store); ok && st.Addr == al {
+						sts = append(sts, st)
+					}
+				}
+				if len(sts) == 1 {
+					return parent, sts[0].Val
+				}
+				return nil, nil
+			}
+			return parent, bv
+		}
+	}
+	return nil, nil
 }
 
 func stripIface(v ssa.Value) ssa.Value {
